@@ -6,7 +6,8 @@ CONSTANTS
   MaxLen = 3
   MaxTime = 5
   RawOps = TRUE
-  IOAmts <- IO1
+  IOIns <- InsQ3
+  IOOuts <- OutsQ3
   Genesis <- Gen1
 VIEW View
 INVARIANTS SupplyEq BalanceWellFormed SupplyWellFormed HolderHasAccount NumsUnique
